@@ -76,7 +76,7 @@ def gen_case_dag(seed, tier, index=0, restart_bias=False):
             c['aggregate'] = True  # legal but unusual: an aggregating component none of whose producers is replicated
         if c.get('restartHookFile') or use_hook_file:
             hook[name] = [rr.choice(['Possible', 'Possible', 'Possible', 'HookNotAvailable', 'NotRequired', 'NotPossible',
-                                     'HookFailed', 'raise', 'ioerror', 'true', 'false', 'junk', 'junkstr'])
+                                     'HookFailed', 'raise', 'ioerror', 'true', 'false', 'junk', 'junkstr', 'slowPossible', 'slowPossible'])
                           for _ in range(rr.choice([1, 3, 6]))]
     stage_opts = {}
     for s in range(nstages):
@@ -206,7 +206,7 @@ def gen_case_restart(seed, tier, index=0):
         plan[name] = {'default': {'dur': 1.0, 'exit': 'Success'}, 'execs': execs}
         if c.get('restartHookFile') or use_hook_file:
             hook[name] = [rr.choice(['Possible', 'Possible', 'Possible', 'Possible', 'HookNotAvailable', 'NotRequired',
-                                     'NotPossible', 'HookFailed', 'raise', 'ioerror', 'true', 'false', 'junk', 'junkstr'])
+                                     'NotPossible', 'HookFailed', 'raise', 'ioerror', 'true', 'false', 'junk', 'junkstr', 'slowPossible', 'slowPossible'])
                           for _ in range(rr.choice([1, 4, 12]))]
     knobs = common.knobs_from(rr, tier)
     knobs['workers'] = rr.choice([None, None, 2])
@@ -839,11 +839,13 @@ def oracle_c12(nodes, ev, states_settled, stop, viol, rec, stages_done):
         # nothing is launched once the component has received its final state
         fa = final_at.get(n)
         if fa is not None and not nd['repeat']:
-            late = [x for x in h if x['launch_seq'] > fa]
+            late = [x for x in h if x['launch_seq'] > fa and not x.get('launch_failed')]
             if late:
-                # counted, not judged: a restart that was already under way when the controller stopped the component
-                # is not covered by C12's statement (which bounds *whether* and *how often* a task is started again)
+                # a component that has its final state was stopped or has finished: starting its task again (a restart
+                # that was being prepared when the controller stopped the component) runs a task nobody supervises
                 rec.count('probe.launch_after_final_state')
+                V('relaunch:after-the-component-received-its-final-state',
+                  {'component': n, 'final_state': states_settled.get(n), 'launches_after': [x['n'] for x in late]})
         # once a restart is refused the component receives its final state
         # (judged for the stages whose loop returned: when an earlier stage fails the launcher aborts and components of
         # later stages that had started early are still being dealt with when the process exits)
